@@ -7,7 +7,7 @@ property monitors on real traces -> on any broken obligation / disagreement sear
 input -> verdict + evidence."""
 import sys, os, json, random, shutil, time, re, traceback
 sys.path.insert(0, os.path.dirname(os.path.abspath(__file__)))
-import vlib, kapi, genapi, monitors, ksizes, kcrypto, kattr, kguard, kstore, ktoken, kfuzz
+import vlib, kapi, genapi, monitors, ksizes, kcrypto, kattr, kguard, kstore, ktoken, kfuzz, kdiff
 
 TRUSTED_BASE = [
     'Coq 8.16.1 kernel (coqc, full .vo build); vm_compute used for reflection over regenerated tables and finite sweeps; no native_compute',
@@ -99,7 +99,9 @@ def core_driver():
 
 def _seq_job(args):
     (lib, p11drv, coredrv, profile, nops, seed, i, monitor_name, userpins, gen_kw) = args
+    gen_kw = dict(gen_kw or {})
     c = Ctx()
+    c.backend = gen_kw.pop('_backend', 'file')
     c.lib = lib
     c.harness = {'p11drv': p11drv}
     rng = random.Random(seed * 1000003 + i)
@@ -115,17 +117,21 @@ def _seq_job(args):
     return {'i': i, 'ops': ops, 'trace': trace, 'dis': dis, 'alarms': alarms}
 
 
-def run_kapi(c, res, pid, profile, nseq, nops, seed, monitor_name, userpins=True, stream='K-api', gen_kw=None, known=None):
+def run_kapi(c, res, pid, profile, nseq, nops, seed, monitor_name, userpins=True, stream='K-api', gen_kw=None, known=None, lib=None):
     """model-guided sequences on the real library (16 worker processes); any disagreement or monitor
     alarm is recorded in res (monitor alarms with a shrunk sequence).  known: function(msg, ops) -> text
     of a listed known finding or None."""
-    import multiprocessing
+    import multiprocessing, copy
     coredrv = core_driver()
+    if lib or (gen_kw and '_backend' in gen_kw):
+        c = copy.copy(c)
+        c.lib = lib or c.lib
+        c.backend = (gen_kw or {}).get('_backend', 'file')
     stats = {'sequences': 0, 'ops': 0, 'compared': 0, 'unmodelled_stops': 0, 'disagreements': 0, 'monitor_alarms': 0,
              'op_kinds': {}, 'rv_kinds': {}, 'distinct_traces': 0}
     seen = set()
     samples = []
-    jobs = [(c.lib, c.harness['p11drv'], coredrv, profile, nops, seed, i, monitor_name, userpins, gen_kw) for i in range(nseq)]
+    jobs = [(lib or c.lib, c.harness['p11drv'], coredrv, profile, nops, seed, i, monitor_name, userpins, gen_kw) for i in range(nseq)]
     monitor = getattr(monitors, monitor_name) if monitor_name else None
     reported = 0
     with multiprocessing.Pool(min(16, max(1, nseq))) as pool:
@@ -173,7 +179,7 @@ def replay_sequence(c, ops, mres, coredrv=None):
     oracle taken from the real trace (DESIGN.md 2.4) and compare"""
     d = vlib.mktmp()
     try:
-        conf = vlib.write_conf(d)
+        conf = vlib.write_conf(d, backend=getattr(c, 'backend', 'file'))
         real, err = kapi.run_real(c.harness['p11drv'], c.lib, conf, ops)
     finally:
         shutil.rmtree(d, ignore_errors=True)
@@ -307,11 +313,19 @@ def check_C12(res, tier, seed):
 
 def _kc_job(args):
     fn, a = args[0], args[1:]
-    mod = kattr if fn.startswith('seq_attr') else kguard if fn.startswith('seq_guard') else kstore if fn in ('seq_reject', 'seq_persist') else ktoken if fn == 'seq_tokens' else kfuzz if fn in ('seq_files', 'seq_api', 'seq_incomplete') else kcrypto
+    if fn.startswith('cfg:'):
+        from p11i import P11
+        _, be_, fn = fn.split(':', 2)
+        P11.DEFAULT_BACKEND = be_
+        try:
+            return _kc_job((fn,) + tuple(a))
+        finally:
+            P11.DEFAULT_BACKEND = 'file'
+    mod = kattr if fn.startswith('seq_attr') else kguard if fn.startswith('seq_guard') else kstore if fn in ('seq_reject', 'seq_persist') else ktoken if fn == 'seq_tokens' else kfuzz if fn in ('seq_files', 'seq_api', 'seq_incomplete') else kdiff if fn == 'seq_cross' else kcrypto
     return getattr(mod, fn)(*a)
 
 
-def run_kcrypto(c, res, pid, fn, n, seed, extra=(), stream='K-crypto', lib2=None, lib_override=None):
+def run_kcrypto(c, res, pid, fn, n, seed, extra=(), stream='K-crypto', lib2=None, lib_override=None, classify=None):
     import multiprocessing
     stats = {'sequences': 0, 'calls': 0, 'findings': 0, 'model_disagreements': 0, 'model_evaluations': 0, 'op_kinds': {}}
     seen = set()
@@ -330,6 +344,11 @@ def run_kcrypto(c, res, pid, fn, n, seed, extra=(), stream='K-crypto', lib2=None
             if len(samples) < 2:
                 samples.append([l[:90] + '  =>  ' + ' '.join('%s=%s' % (k, str(v)[:40]) for k, v in r.items() if k in ('rv', 'len', 'h')) for l, r in tr[8:40]])
             for msg, j in out['findings']:
+                kf = classify(msg) if classify else None
+                if kf:
+                    stats['known_findings'] = stats.get('known_findings', 0) + 1
+                    res.known_finding(kf)
+                    continue
                 stats['findings'] += 1
                 if reported < 3:
                     reported += 1
@@ -540,6 +559,67 @@ def check_C17(res, tier, seed):
     finish_proof_side(c, res, 'C17')
 
 
+CONFIGS = [('ossl-file', 'file'), ('ossl-db', 'db'), ('botan-file', 'file'), ('botan-db', 'db')]
+
+
+def check_C20(res, tier, seed):
+    """every configuration against the SAME model / reference implementations (so against each other), plus the
+    randomised mechanisms across the two crypto backends"""
+    c = prepare('C20', res, variants=tuple(v for v, _ in CONFIGS), extra_vo=['extract/ExtractOp.vo', 'extract/ExtractPad.vo'])
+    opdrv = vlib.build_ocaml('opdrv', 'op_model', 'opdrv.ml')
+    paddrv = vlib.build_ocaml('paddrv', 'pad_model', 'paddrv.ml')
+    per = {}
+    q = tier == 'quick'
+    known20 = {k['key']: k for k in vlib.known_findings() if k['kind'] == 'known' and k['property'] == 'C20'}
+
+    def botan_known(msg):
+        key = None
+        if 'cbc' in msg and 'decryption of the reference ciphertext' in msg and 'rv=0x5' in msg:
+            key = 'botan-cbc-decrypt'
+        elif msg.startswith('C_DeriveKey(ecb) failed') or msg.startswith('C_DeriveKey(cbc) failed'):
+            key = 'botan-encrypt-data-derive' if 'rv=0x70' in msg else None
+        return ('key=%s %s' % (key, known20[key]['text'][:200])) if key in known20 else None
+    total_calls, total_distinct, total_seq = 0, 0, 0
+    for variant, backend in CONFIGS:
+        lib = vlib.lib_path(c.builds[variant])
+        name = '%s+%s' % (variant.split('-')[0], backend)
+        st = {}
+        a, _ = run_kapi(c, res, 'C20', 'objects', 60 if q else 2500, 45, seed, 'monitor_c01', stream='K-api[%s]' % name, gen_kw={'_backend': backend}, lib=lib)
+        b, _ = run_kapi(c, res, 'C20', 'tokens', 40 if q else 1500, 45, seed, 'monitor_c03', stream='K-api[%s]' % name, gen_kw={'_backend': backend, 'ntok': 3}, lib=lib)
+        st['k_api'] = {'sequences': a['sequences'] + b['sequences'], 'ops': a['ops'] + b['ops'], 'compared': a['compared'] + b['compared'], 'disagreements': a['disagreements'] + b['disagreements']}
+        total_calls += a['ops'] + b['ops']
+        total_distinct += a['distinct_traces'] + b['distinct_traces']
+        total_seq += a['sequences'] + b['sequences']
+        for (fn, n, extra, label) in (('seq_attr', 40 if q else 1500, (), 'K-attr'), ('seq_c10', 40 if q else 1500, (), 'K-crypto'), ('seq_c13', 40 if q else 1500, (paddrv,), 'K-pad'),
+                                      ('seq_guard', 40 if q else 1500, (), 'K-guard'), ('seq_reject', 30 if q else 1000, (), 'K-reject'), ('seq_tokens', 30 if q else 1000, (), 'K-token')):
+            s_, d_, _ = run_kcrypto(c, res, 'C20', 'cfg:%s:%s' % (backend, fn), n, seed, extra=extra, stream='%s[%s]' % (label, name), lib_override=lib,
+                                    classify=botan_known if variant.startswith('botan') else None)
+            st[label] = {'sequences': s_['sequences'], 'calls': s_['calls'], 'findings': s_['findings'], 'known_findings': s_.get('known_findings', 0)}
+            total_calls += s_['calls']
+            total_distinct += d_
+            total_seq += s_['sequences']
+        per[name] = st
+    # the SQLite store's C_CopyObject (DBObject::nextAttributeType is a stub): directed probe, known finding
+    known = {k['key']: k for k in vlib.known_findings() if k['kind'] == 'known' and k['property'] == 'C20'}
+    for variant, backend in CONFIGS:
+        if backend != 'db':
+            continue
+        bad = kdiff.probe_db_copy(vlib.lib_path(c.builds[variant]), c.harness['p11drv'])
+        if bad:
+            if 'db-copyobject' in known:
+                res.known_finding('key=db-copyobject %s' % known['db-copyobject']['text'][:200])
+            else:
+                res.violation('C20: ' + bad[0], {'kind': 'probe', 'message': bad[0], 'ops': bad[1], 'configuration': variant})
+    # randomised mechanisms: produced under one crypto backend, accepted under the other
+    xs, xd, _ = run_kcrypto(c, res, 'C20', 'seq_cross', 40 if q else 1200, seed, extra=(vlib.lib_path(c.builds['botan-file']),), stream='K-cross')
+    total_calls += xs['calls']
+    res.coverage.update({'evaluations': total_calls, 'distinct_nontrivial': total_distinct + xd,
+                         'rule': 'for each of the four configurations {OpenSSL, Botan} x {file, SQLite}: the K-api correspondence with the SAME extracted core model (objects and three-token profiles, restarts included), and the K-attr, K-crypto (byte-for-byte against the reference implementations), K-pad, K-guard, K-reject and K-token streams; agreement of every configuration with the same model and references is agreement with each other.  K-cross: RSA PKCS#1 v1.5 / PSS signatures, RSA PKCS#1 v1.5 / OAEP ciphertexts, AES-GCM ciphertexts and wrapped keys produced under OpenSSL are verified / decrypted / unwrapped under Botan and vice versa, with the same imported keys.',
+                         'per_configuration': per, 'k_cross': xs, 'traces_validated_against_impl': total_seq + xs['sequences'],
+                         'not_covered': 'K-sizes (buffer protocol) is run on the OpenSSL+file configuration only (C12); ECDSA / EdDSA / DH across backends'})
+    finish_proof_side(c, res, 'C20')
+
+
 def check_C05(res, tier, seed):
     c = prepare('C05', res, extra_vo=['extract/ExtractCodec.vo'])
     codecdrv = vlib.build_ocaml('codecdrv', 'codec_model', 'codecdrv.ml')
@@ -590,7 +670,7 @@ def kapi_check(pid, profile, monitor_name, rule, nq=400, nt=12000, nops=45):
 
 
 RULE = 'model-guided random call sequences over 2 tokens and up to ~8 sessions (%s profile of tools/genapi.py); a trace is non-trivial when at least 3 calls after the prelude succeed; distinct = distinct (op, rv) sequences'
-CHECKS = {'C03': check_C03, 'C07': check_C07, 'C05': check_C05, 'C09': check_C09, 'C16': check_C16, 'C14': check_C14, 'C17': check_C17, 'C12': check_C12, 'C02': attr_check('C02'), 'C08': attr_check('C08'), 'C10': check_C10, 'C13': check_C13,
+CHECKS = {'C03': check_C03, 'C07': check_C07, 'C05': check_C05, 'C09': check_C09, 'C16': check_C16, 'C14': check_C14, 'C17': check_C17, 'C20': check_C20, 'C12': check_C12, 'C02': attr_check('C02'), 'C08': attr_check('C08'), 'C10': check_C10, 'C13': check_C13,
           'C01': kapi_check('C01', 'objects', 'monitor_c01', RULE % 'objects'),
           'C04': kapi_check('C04', 'pins', 'monitor_c03', RULE % 'pins'),
           'C11': kapi_check('C11', 'handles', 'monitor_c11', RULE % 'handles'),
